@@ -207,7 +207,7 @@ def run_semantic(ck, text_cases, recases=None):
             extra.append(c)
     for i, c in enumerate(extra):
         ctx = dict(c["ctx"])
-        ctx["cluster"] = False       # the WITH list is printed, not inlined: the form harness/sqlparse resolves
+        # (cluster contexts keep their inline rendering: prep reads `(SELECT ...) as alias` back as the WithRef)
         ctx["finalize"] = True
         todo.append({"id": 2000000 + i, "query": c["query"], "ctx": ctx, "runs": 1, "class": c.get("class") or [], "origin": "text"})
     enriched, out = pipeline(ck, "sem", todo, ndb)
@@ -315,6 +315,7 @@ def run_semantic(ck, text_cases, recases=None):
     ck.coverage["distinct_nontrivial"] += len(nontrivial)
     ck.coverage["rule"] += ("semantic layer: (query, ctx, database) triples; the implementation's SQL is evaluated twice (two tie-breakings) and judged by sem_b; "
                             "non-trivial = the reference answer keeps some samples and drops others, or a LIMIT cuts it; distinct by content. ")
+    ck.extra.setdefault("input_distribution", {})["cluster (WITH references printed inline)"] = sum(1 for i in res if byid[i]["ctx"].get("cluster"))
     ck.extra.setdefault("input_distribution", {})["plans"] = {
         "Plan(script, true)": sum(1 for i in res if byid[i]["ctx"].get("finalize", True)),
         "Plan(script, false) (breakpoint plans)": sum(1 for i in res if not byid[i]["ctx"].get("finalize", True))}
